@@ -959,6 +959,47 @@ func universe(rng *rand.Rand, n int, profile string) []epJ {
 		if n%2 == 1 {
 			u[n-1].W = int32(rng.Intn(40))
 		}
+	case "extreme": // positive int32 extremes and the thresholds of W*R around 2^31 and of the ratio clamp
+		switch rng.Intn(4) {
+		case 0: // every weight from the table
+			setW(func(int) int32 { return extremeWeights[rng.Intn(len(extremeWeights))] })
+		case 1: // W_max/W_min exactly / just around 10 and 100
+			base := extremeWeights[rng.Intn(len(extremeWeights))]
+			k := []int64{9, 10, 11, 99, 100, 101}[rng.Intn(6)]
+			for int64(base)*k+1 > math.MaxInt32 {
+				base /= 3
+			}
+			if base < 1 {
+				base = 1
+			}
+			top := int32(int64(base)*k) + int32(rng.Intn(3)-1)
+			if top < base {
+				top = base
+			}
+			setW(func(i int) int32 {
+				switch i {
+				case 0:
+					return base
+				case 1:
+					return top
+				}
+				return base + int32(rng.Int63n(int64(top-base)+1))
+			})
+		case 2: // all huge and within a factor 10 (R = 10): W*R > 2^31-1 from 214 748 365 on
+			hi := []int32{math.MaxInt32, 1 << 30, 214748365 * 9, 214748364 * 10}[rng.Intn(4)]
+			setW(func(int) int32 { return hi/10 + 1 + int32(rng.Int63n(int64(hi-hi/10))) })
+			u[0].W = hi
+		default: // spread >= 100 (R = 100): W*R > 2^31-1 from 21 474 837 on
+			hi := []int32{math.MaxInt32, 1 << 30, math.MaxInt32 - 47, 21474836 * 100, 1 << 24 * 100}[rng.Intn(5)]
+			setW(func(int) int32 { return 1 + int32(rng.Int63n(int64(hi))) })
+			u[0].W = hi
+			if n > 1 {
+				u[1].W = hi/100 - int32(rng.Intn(3))
+			}
+			if n > 2 {
+				u[2].W = []int32{21474835, 21474836, 21474837, 21474838}[rng.Intn(4)]
+			}
+		}
 	case "mixedtype":
 		setW(func(int) int32 { return int32(rng.Intn(9) - 1) })
 		for i := range u {
@@ -976,7 +1017,19 @@ func universe(rng *rand.Rand, n int, profile string) []epJ {
 	return u
 }
 
-var profiles = []string{"equal", "static", "static", "ratio", "zero", "neg", "negsum", "allneg", "big", "hugemix", "mixedtype", "loop"}
+var profiles = []string{"equal", "static", "static", "ratio", "zero", "neg", "negsum", "allneg", "big", "hugemix", "mixedtype", "loop",
+	"extreme", "extreme"}
+
+// legal int32 weights at which something changes: the clamp of R = min(100, max(10, Wmax/Wmin)) (ratios
+// 9/10/11/99/100/101 are formed from these), W*R crossing 2^31-1 (21 474 836.47 for R = 100,
+// 214 748 364.7 for R = 10), powers of two, the int32 maximum. Go int is 64 bit: W*R never wraps in the
+// code as it is; a narrower intermediate type does.
+var extremeWeights = []int32{1, 2, 9, 10, 11, 99, 100, 101, 1<<15 - 1, 1 << 15, 1<<15 + 1, 1<<16 - 1, 1 << 16, 1<<16 + 1, 1 << 24,
+	21474835, 21474836, 21474837, 214748363, 214748364, 214748365, 1 << 30, math.MaxInt32 - 1, math.MaxInt32}
+
+// hugeWeightsOK: the allocation probe (run first) found BuildStaticWeightList's allocation bounded, so
+// weights near 2^31 can be fed to the in-process streams (as found, one such endpoint asked for 16 GiB)
+var hugeWeightsOK = true
 
 // profiles for which a weighted selector would allocate by the sum of weights as found
 func cycleLen(u []epJ) int {
@@ -1119,6 +1172,34 @@ func genBSWL(rng *rand.Rand, thorough bool) []caseJ {
 		{math.MaxInt32, -math.MaxInt32, 7}, {1 << 20, 1}, {1 << 20, 1 << 19, 3}} {
 		add("fixed", fixedEps(ws...))
 	}
+	if hugeWeightsOK {
+		for _, ws := range [][]int32{{1000000, 100000000}, {30000000, 300000000, 900000000}, {math.MaxInt32}, {math.MaxInt32, math.MaxInt32},
+			{math.MaxInt32, 1}, {1, math.MaxInt32, 21474836}, {1, math.MaxInt32, 21474837}, {21474836, 1}, {21474837, 1}, {21474836, 214748},
+			{21474837, 214748}, {214748364, 214748364}, {214748365, 214748365}, {214748365, 21474837}, {214748364, 21474836},
+			{1 << 30, 1 << 30, 1<<30 - 1}, {1 << 30, 1 << 27, 1 << 20, 1}, {math.MaxInt32, math.MaxInt32 / 10}, {math.MaxInt32, math.MaxInt32/10 + 1},
+			{math.MaxInt32, math.MaxInt32 / 100}, {math.MaxInt32, math.MaxInt32/100 + 1}, {math.MaxInt32, math.MaxInt32 / 101},
+			{math.MaxInt32 - 1, 2, math.MaxInt32}, {1 << 24, 1 << 24, 1}, {1<<16 + 1, 1<<15 - 1, 1 << 24}} {
+			add("fixed-extreme", fixedEps(ws...))
+		}
+		// every vector of length <= 2 (thorough: <= 3) over the table of thresholds
+		exLen := 2
+		if thorough {
+			exLen = 3
+		}
+		var recx func(prefix []int32)
+		recx = func(prefix []int32) {
+			if len(prefix) > 0 {
+				add("exhaustive-extreme", fixedEps(prefix...))
+			}
+			if len(prefix) == exLen {
+				return
+			}
+			for _, w := range extremeWeights {
+				recx(append(append([]int32{}, prefix...), w))
+			}
+		}
+		recx(nil)
+	}
 	// small exhaustive: all weight vectors over {-2..4} of length <= 3 (thorough: {-3..6}, length <= 4)
 	lo, hi, maxLen := int32(-2), int32(4), 3
 	if thorough {
@@ -1144,6 +1225,9 @@ func genBSWL(rng *rand.Rand, thorough bool) []caseJ {
 	}
 	for i := 0; i < n; i++ {
 		p := profiles[rng.Intn(len(profiles))]
+		if p == "extreme" && !hugeWeightsOK {
+			p = "big"
+		}
 		sz := 1 + rng.Intn(9)
 		if rng.Intn(10) == 0 {
 			sz = 10 + rng.Intn(30) // more than 12 slots: sort.Slice leaves insertion sort
@@ -1497,6 +1581,17 @@ func main() {
 
 	thorough := o.Thorough()
 	var cases []caseJ
+	// 0. allocation probe in a child process, first: it decides whether weights near 2^31 may be fed to
+	// the in-process streams
+	nv := len(res.Violations)
+	ck.check(caseJ{Kind: "oom-child", N: 64, W: math.MaxInt32})
+	if len(res.Violations) > nv {
+		hugeWeightsOK = false
+		res.Note("weights near 2^31 are left out of the in-process streams: the allocation of BuildStaticWeightList is not bounded on this tree")
+	}
+	if strconv.IntSize != 64 {
+		res.Note("Go int is %d bit on this platform: the model's unbounded integers agree with int(node.Weight)*maxRange only for 64-bit int", strconv.IntSize)
+	}
 	// 1. BuildStaticWeightList, element-wise
 	cases = append(cases, genBSWL(rng, thorough)...)
 	// 2. D2 witnesses at the selector level (always run)
@@ -1531,7 +1626,10 @@ func main() {
 				if ew && p == "big" && sel != "conhash" && i%4 != 0 {
 					p = "static"
 				}
-				if ew && p == "hugemix" {
+				if p == "extreme" && ((sel == "conhash" && ew) || !hugeWeightsOK) {
+					p = "ratio" // weighted consistent hash places weight/4 virtual nodes per endpoint
+				}
+				if ew && p == "hugemix" && (sel == "conhash" || !hugeWeightsOK) {
 					// sub-lists of this universe do not cancel: as found a single such endpoint makes
 					// BuildStaticWeightList ask for 16 GiB; huge weights are covered by the element-wise
 					// stream (whole universes) and by the child-process probe
@@ -1559,6 +1657,14 @@ func main() {
 	genExhaustive(ck.check, "modhash", true, uPos, exLen, "exhaustive-pos")
 	genExhaustive(ck.check, "random", true, uBad, exLen-1, "exhaustive-bad")
 	genExhaustive(ck.check, "conhash", true, uBad, exLen-1, "exhaustive-bad")
+	if hugeWeightsOK {
+		// W*R = 2.1e10 for a and b, 2 147 483 650 for c: expected cycle 10, 10, 1
+		uBig := []epJ{{Host: "a", Port: 1, Proto: "tcp", W: math.MaxInt32, WT: 1}, {Host: "b", Port: 1, Proto: "tcp", W: math.MaxInt32 - 1, WT: 1},
+			{Host: "c", Port: 1, Proto: "udp", W: 214748365, WT: 1}}
+		genExhaustive(ck.check, "rr", true, uBig, exLen, "exhaustive-extreme")
+		genExhaustive(ck.check, "modhash", true, uBig, exLen-1, "exhaustive-extreme")
+		genExhaustive(ck.check, "random", true, uBig, exLen-1, "exhaustive-extreme")
+	}
 	if thorough {
 		genExhaustive(ck.check, "rr", true, uPos, 5, "exhaustive-pos")
 		genExhaustive(ck.check, "rr", true, uBad, 5, "exhaustive-bad")
@@ -1586,6 +1692,9 @@ func main() {
 				if i%2 == 1 {
 					p = "zero"
 				}
+				if ew && sel != "conhash" && hugeWeightsOK && i%2 == 0 {
+					p = "extreme"
+				}
 				cases = append(cases, caseJ{Kind: "conc", Sel: sel, EW: ew, Tag: p,
 					Conc: &concJ{Uni: universe(rng, 6, p), Updates: upd, Selectors: 4, Seed: rng.Int63()}})
 			}
@@ -1603,9 +1712,6 @@ func main() {
 		cases = append(cases, caseJ{Kind: "conc", Sel: sel, EW: sel == "random", Tag: "select-only",
 			Conc: &concJ{Uni: universe(rng, 5, "static"), Updates: 0, Selectors: 8, MinSel: minSel, Seed: rng.Int63()}})
 	}
-	// 7. allocation probe in a child process
-	cases = append(cases, caseJ{Kind: "oom-child", N: 64, W: math.MaxInt32})
-
 	for _, c := range cases {
 		ck.check(c)
 	}
